@@ -58,6 +58,29 @@ class Discard(Exception):
         self.reason = reason
 
 
+class Unexpected(BaseException):
+    """An exception of an undocumented kind escaped felupe in a fault-free run (e.g. a numpy
+    broadcasting ValueError instead of Newton's own 'not converged' ValueError). The worker
+    reports it as a violation of the property whose scenario it was."""
+
+    def __init__(self, exc, where):
+        super().__init__(f"{type(exc).__name__}: {exc}")
+        self.exc = exc
+        self.where = where
+
+
+NEWTON_MESSAGES = ("Norm of unknowns is NaN.", "Maximum number of iterations reached")
+
+
+def newton_failure(e):
+    """Newton's documented way of failing (also: LinAlgError of an eigen-solver fed with NaN)."""
+    import numpy as _np
+
+    if isinstance(e, _np.linalg.LinAlgError):
+        return True
+    return isinstance(e, ValueError) and str(e).startswith(NEWTON_MESSAGES)
+
+
 class HarnessError(BaseException):
     """A failure of the simulator itself. Never a pass and never a violation."""
 
